@@ -125,7 +125,14 @@ def run_harness(ctx, h, replay=None):
 def run(ctx):
     h = vlib.build_harness(ctx, 'c12')
     cases = run_harness(ctx, h, replay=ctx.replay)
+    meta = [c for c in cases if c.get('kind') == 'meta']
+    cases = [c for c in cases if c.get('kind') == 'set']
     sets = [c for c in cases if c.get('lintable')]
+    expected_fixes = sorted(RULE)
+    for m in meta:
+        if m['fixes'] != expected_fixes or not set(m['formatter_fixes']) <= set(expected_fixes):
+            vlib.violation(ctx, {'kind': 'model-out-of-date', 'what': 'fixes.NewDefaultFixes() / NewDefaultFormatterFixes() name other fixes than the '
+                                 'loop model knows (Model/FixLoop.v rule)', 'in_repo': m, 'in_model': expected_fixes}, no_input=True)
 
     # ---- predicate on the implementation -------------------------------------------------------------
     classes = collections.Counter()
@@ -182,6 +189,17 @@ def run(ctx):
                 fs_v(E, st['files']), viol_v(E, st.get('viol') or []), fs_v(E, nxt), vlib.cbool(last), table,
                 vlib.cbool(c['mode'] == 'rename')))
             owner.append((c, k))
+    # self-test of the comparison: an iteration whose observed successor is perturbed must be flagged
+    pert_v = None
+    for c in sets:
+        tr = c.get('trace') or []
+        if not c['err'] and len(tr) == c['iters'] and len(tr) >= 2 and not tr[0].get('linterr'):
+            bad_next = [dict(f) for f in tr[1]['files']]
+            bad_next[0]['content'] = base64.b64encode(base64.b64decode(bad_next[0]['content']) + b' ').decode()
+            pert_v = '{| i_files := %s; i_viol := %s; i_next := %s; i_last := false; i_table := %s; i_rename := %s |}' % (
+                fs_v(E, tr[0]['files']), viol_v(E, tr[0].get('viol') or []), fs_v(E, bad_next), table_v(E, c.get('oracle')),
+                vlib.cbool(c['mode'] == 'rename'))
+            break
     v = ['From Coq Require Import Uint63.', 'From Regal Require Import Check.C12Check.', 'Open Scope N_scope.'] + E.defs
     CH = 100
     chunks = []
@@ -191,7 +209,8 @@ def run(ctx):
     v.append('Definition iters := %s.' % (' ++ '.join(chunks) if chunks else '(@nil iter_case)'))
     v.append('Definition R1 := Eval vm_compute in failing iter_agrees 0 iters.')
     v.append('Definition R2 := Eval vm_compute in failing (fun c => negb (iter_unmodelled c)) 0 iters.')
-    v.append('Print R1. Print R2.')
+    v.append('Definition R3 := %s.' % ('Eval vm_compute in failing iter_agrees 0 [%s]' % pert_v if pert_v else '[0]%nat'))
+    v.append('Print R1. Print R2. Print R3.')
     rc, cout = vlib.coq_eval(ctx, 'Cases_C12', '\n'.join(v))
     if rc != 0:
         raise RuntimeError('case evaluation failed:\n' + cout[-3000:])
@@ -199,6 +218,8 @@ def run(ctx):
     r2 = vlib.parse_nat_list(cout, 'R2')
     if r1 is None or r2 is None:
         raise RuntimeError('could not read the results of the case evaluation:\n' + cout[-2000:])
+    if vlib.parse_nat_list(cout, 'R3') != [0]:
+        raise RuntimeError('self-test failed: a perturbed successor state was not flagged by Check.C12Check.iter_agrees')
     if r1 and not ctx.violations:
         c, k = owner[r1[0]]
         vlib.violation(ctx, {'kind': 'correspondence', 'relation': 'Check.C12Check.iter_agrees (Model/FixLoop.v pass vs one iteration of applyLinterFixes)',
